@@ -766,7 +766,11 @@ func Build(rec *Recorder, n *Node, validate bool) z.ZogSchema {
 		t := &n.Tests[0]
 		return z.CustomFunc(func(p *string, ctx z.Ctx) bool {
 			rec.rec(t.ID, "custom", p, ctx)
-			return EvalPred(t.User, reflect.ValueOf(p).Elem())
+			ok := EvalPred(t.User, reflect.ValueOf(p).Elem())
+			if n.CustomMut {
+				*p = asciiUpper(*p) // the pointer is the destination: what is written through it stays
+			}
+			return ok
 		}, testOpts(t)...)
 	case KPre:
 		inner := Build(rec, n.Elem, validate)
